@@ -8,17 +8,31 @@ pub struct C01;
 
 const SHAPE_QUICK: Shape = Shape { max_len: 120, mappings: false, violate_pct: 30, allow_reuse: true, allow_fold: true, files: Vec::new(), jit: false };
 
+fn cs_cases(tier: Tier) -> u64 {
+    match tier {
+        Tier::Quick => 100,
+        Tier::Thorough => 4000,
+    }
+}
+
 impl Prop for C01 {
     fn id(&self) -> &'static str {
         "C01"
     }
     fn case_count(&self, tier: Tier) -> u64 {
         match tier {
-            Tier::Quick => 400,
-            Tier::Thorough => 20000,
+            Tier::Quick => 400 + cs_cases(Tier::Quick),
+            Tier::Thorough => 20000 + cs_cases(Tier::Thorough),
         }
     }
-    fn generate(&self, rng: &mut Rng, tier: Tier, _index: u64) -> Vec<String> {
+    fn generate(&self, rng: &mut Rng, tier: Tier, index: u64) -> Vec<String> {
+        // the first 400 (quick) / 20 000 (thorough) indices are the families without context switches (their
+        // cases are unchanged); the rest are recordings with switch records / sched_switch samples, EXIT / EXEC /
+        // FORK in between, --reuse-threads in an eighth
+        if index >= self.case_count(tier) - cs_cases(tier) {
+            let shape = CsShape { max_len: if tier == Tier::Quick { 80 } else { 250 }, lifecycle: rng.chance(2, 3), allow_reuse: true };
+            return gen_cs_history(rng, &shape).to_ops();
+        }
         let mut shape = SHAPE_QUICK.clone();
         if tier == Tier::Thorough {
             shape.max_len = 300;
@@ -32,7 +46,13 @@ impl Prop for C01 {
         count_history(&h, stats);
         let dir = work_tmp("C01");
         let tag = format!("c{:016x}", fnv1a(ops));
-        import_and_render(&h, Proj::C01, &dir, &tag, stats)
+        if let Some(cs) = &h.cs {
+            stats.bump(&format!("cs_mode_{}", cs.word().split(':').nth(1).unwrap_or("-")));
+        }
+        // recordings with context-switch settings: time, on/off, weight, cpu delta per sample
+        let out = import_and_render(&h, if h.cs.is_some() { Proj::Cs } else { Proj::C01 }, &dir, &tag, stats);
+        stats.add("off_cpu_samples", out.iter().filter(|l| l.starts_with("s ") && l.contains(" off ")).count() as u64);
+        out
     }
     fn nontrivial(&self, ops: &[String], out: &[String]) -> bool {
         // at least two thread entries and one sample in the output
